@@ -7,6 +7,7 @@ require (
 	github.com/anyproto/any-sync v0.0.0
 	github.com/anyproto/lexid v0.0.6
 	github.com/cespare/xxhash v1.1.0
+	github.com/golang/snappy v1.0.0
 	go.uber.org/zap v1.28.0
 	google.golang.org/protobuf v1.36.11
 	storj.io/drpc v1.0.0
@@ -32,7 +33,6 @@ require (
 	github.com/gobwas/glob v0.2.3 // indirect
 	github.com/goccy/go-graphviz v0.2.10 // indirect
 	github.com/golang/freetype v0.0.0-20170609003504-e2365dfdc4a0 // indirect
-	github.com/golang/snappy v1.0.0 // indirect
 	github.com/google/uuid v1.6.0 // indirect
 	github.com/huandu/skiplist v1.2.1 // indirect
 	github.com/ipfs/go-cid v0.6.2 // indirect
